@@ -616,11 +616,15 @@ def cross_compare(aj, od, implicit_mask, mode):
                 width = 32
             if any(r in ("bx", "bp", "si", "di") for r in (ob, oi)):
                 width = 16
+            if "addr32" in od["prefixes"] and ob is None and oi is None:
+                width = 32      # objdump prints an absolute address under an address-size prefix sign-extended to 64 bits
             mask = (1 << width) - 1
             if (ad & mask) != (odp & mask):
                 msgs.append("displacement `%s` vs objdump `%s`" % (a["raw"], o["raw"]))
             aseg, oseg = a["seg"], o["seg"]
-            if aseg and oseg and aseg != oseg:
+            if mode == 64 and aseg in ("cs", "ss", "ds", "es") and (aseg in od["prefixes"] or oseg in (None, "", "ds", "es", "ss", "cs")):
+                pass    # null segment overrides in 64-bit mode: objdump lists the prefix but prints the default segment
+            elif aseg and oseg and aseg != oseg:
                 msgs.append("segment `%s` vs objdump `%s`" % (a["raw"], o["raw"]))
             elif aseg and not oseg and aseg not in od["prefixes"] and not (aseg == "ds" and "notrack" in od["prefixes"]):
                 msgs.append("segment `%s` not seen by objdump `%s`" % (a["raw"], o["raw"]))
